@@ -81,6 +81,15 @@ CHECKS['C16'] = dict(
     design_ref='DESIGN.md 4/C16',
     note='Trusted: MIR = code; io stubs; a fresh Environment stands for a fresh process; std builtins. Outside: artifacts on disk, separate invocations, directory recursion, diagnostics text.',
     technique='symbolic execution of the binary crate\'s MIR; relational batch-vs-alone check over recorded events, decided per path; replay with the real binary (bounded: project, batch length)')
+CHECKS['C09'] = dict(
+    category='model_checking',
+    text='(1) the real AST::translate (Rewriter driven by the real Walker) on programs placing a relative import / include at ~40 syntactic positions: no relative spelling may survive in the compiled form; '
+         '(2) the real path::normalize on absolute paths of up to 4/5 components whose kinds are symbolic decisions, against a stack-machine reference (idempotence, equal results for equivalent spellings); '
+         '(3) the real import hook, value cache, import stack, opcode cache and the static checker\'s import resolution through real builds on a virtual file system: one read + one evaluation per file under '
+         'any spelling (TRACE count), import cycles (incl. respelled ones) end in a cycle diagnostic, never in unbounded recursion.',
+    design_ref='DESIGN.md 4/C09',
+    note='Trusted: MIR = code; std::path builtins over a component list; virtual file system. Outside: real directory trees and cwd (exercised only in replay), symlinks.',
+    technique='symbolic execution of rustc MIR (Rewriter/Walker, normalize with symbolic component kinds, import hook); call-depth bound hits are replayed natively (bounded: positions, components, projects)')
 NOT_APPLICABLE = {
 }
 ALL = ['C%02d' % i for i in range(1, 21)]
